@@ -1,8 +1,65 @@
 package main
 
+import (
+	"go/ast"
+	"sort"
+	"strings"
+)
+
 // regenerated facts of the "index" family (C11 C12 C13 C14 C16)
 
 func init() { families = append(families, factsIndex) }
 
 func factsIndex() {
+	factsC13()
+}
+
+// writeArgs lists, in source order, the first argument of every call of the form
+// <recv>.WriteString / WriteByte / WriteRune in body.
+func writeArgs(body ast.Node, recv string) []string {
+	type hit struct {
+		pos int
+		s   string
+	}
+	var hits []hit
+	if body == nil {
+		return nil
+	}
+	ast.Inspect(body, func(n ast.Node) bool {
+		c, ok := n.(*ast.CallExpr)
+		if !ok {
+			return true
+		}
+		sel, ok := c.Fun.(*ast.SelectorExpr)
+		if !ok || text(sel.X) != recv || len(c.Args) != 1 {
+			return true
+		}
+		switch sel.Sel.Name {
+		case "WriteString", "WriteByte", "WriteRune":
+			hits = append(hits, hit{int(c.Pos()), text(c.Args[0])})
+		}
+		return true
+	})
+	sort.Slice(hits, func(i, j int) bool { return hits[i].pos < hits[j].pos })
+	var r []string
+	for _, h := range hits {
+		r = append(r, h.s)
+	}
+	return r
+}
+
+func factsC13() {
+	f := parse("pkg/store/cache/cache.go")
+	// the string hashed for a postings key: first blake2b.Sum256([]byte(X)) in CacheKey.String
+	pre := "unknown"
+	if cs := calls(body(fn(f, "CacheKey", "String")), "Sum256"); len(cs) > 0 && len(cs[0].Args) == 1 {
+		if conv, ok := cs[0].Args[0].(*ast.CallExpr); ok && len(conv.Args) == 1 && strings.HasPrefix(text(conv.Fun), "[]byte") {
+			pre = text(conv.Args[0])
+		}
+	}
+	emitStr("postingsKeyPreimage", "pkg/store/cache/cache.go CacheKey.String: the string hashed for a postings key", pre)
+
+	g := parse("pkg/store/cache/matchers_cache.go")
+	emitList("matcherKeyWrites", "pkg/store/cache/matchers_cache.go cacheKey: what is written to the key, in order",
+		writeArgs(body(fn(g, "", "cacheKey")), "sb"))
 }
